@@ -34,6 +34,9 @@ CHECKS = {
  "C10": ("zcheck", "stateless model checking of Server::run with streaming calls: stream items and stream ends are driver events interleaved with client traffic",
          "Scripts mixing Watch calls (0..2 items, ending or left open) with plain/error calls pipelined before and behind them on <=2/3 connections, all interleavings of item production, stream end, byte arrival and other clients' calls; a client becoming unwritable at any point. Items in order with the service's continues flag, calls behind the stream answered after it ends, other clients unaffected, only the unwritable client's subscription dropped.",
          "Bounded: <=2/3 connections, <=4/5 calls, <=8 events, streams of <=2 items, <=1/2 deviations (cuts, short reads, delayed polls).", "4 C10"),
+ "C18": ("zcheck", "stateless model checking of Server::run's scheduling: DFS over connection roles x the moment (every hand-over of a call to the service is an injection point) of every arrival, closure, stream end and late connect; oracle on the global service order",
+         "Every execution floods a real Server from a subset of connections while the others' single calls, closures, stream transitions and late connects are injected at chosen hand-overs; clause 1 (no connection served twice while another, eligible one has had a complete call waiting and the set is unchanged) and clause 2 (waiting bounded by N*(T+1)) are evaluated on the recorded service order with per-hand-over snapshots of the connection set.",
+         "Trusted: hand-overs are the only moments at which the single-task server can observe new input between two services. Bounded: <=3/4/5 connections, floods of 4..8 calls, 5..14 moments.", "4 C18"),
 }
 
 NOT_YET = {
